@@ -78,8 +78,9 @@ Step(s0, e) ==
          IF s0.run.c # e.c THEN Rej("send not predicted")
          ELSE IF e.fn = "sendmsg" THEN (IF s0.run.pc = "sendmsg" /\ e.want > s0.c[e.c].resp.blen THEN Ok(SendMsg(s0, e.want, e.ret, e.err)) ELSE Rej("sendmsg not predicted"))
          ELSE IF s0.run.pc # "send" THEN Rej("send not predicted")
-         ELSE IF e.want # SendWant(s0) THEN Rej("send offers " \o ToString(e.want) \o " bytes, the model " \o ToString(SendWant(s0)))
-         ELSE Ok(Send(s0, e.ret, e.err))
+         ELSE IF e.want = SendWant(s0) THEN Ok(Send(s0, e.ret, e.err))
+         ELSE IF e.want = s0.c[e.c].leftalt THEN Ok(Send([s0 EXCEPT !.c[e.c].left = e.want], e.ret, e.err))
+         ELSE Rej("send offers " \o ToString(e.want) \o " bytes, the model " \o ToString(SendWant(s0)))
     [] e.e = "snt" ->
          IF s0.run.pc = "sndcb" /\ s0.run.c = e.c /\ (s0.c[e.c].resp.k = 0 \/ e.k = s0.c[e.c].resp.k) /\ e.thr = 0 THEN Ok(SndCb(s0, e.rc)) ELSE Rej("on_rep_snd not predicted")
     [] e.e = "api" ->
@@ -102,9 +103,13 @@ Step(s0, e) ==
          IF e.connections = s0.stat.conns /\ e.requests = s0.stat.reqs /\ e.timeouts = s0.stat.tmo /\ e.binds = Len(s0.srv.order) THEN Ok(s0)
          ELSE Rej("statistics differ: the model has " \o ToString(<<s0.stat, Len(s0.srv.order)>>))
     [] e.e = "c.eos" ->
-         LET cr == s0.c[e.c] IN
-         IF ~RespsOk(cr.resps, e.resps, e.cclosed = 1 \/ e.rst = 1) THEN Rej("the client received other responses than the model sent: " \o ToString(cr.resps))
-         ELSE IF e.partial # 0 /\ cr.cur = << >> /\ e.rst = 0 THEN Rej("the client received bytes after the last complete response")
+         LET cr == s0.c[e.c]
+             \* a generated page that was cut in the middle of sending can not be told from a whole malformed one by the client
+             cut == /\ Len(e.resps) = Len(cr.resps) + 1 /\ cr.cur # << >> /\ e.resps[Len(e.resps)][7] = 0
+                    /\ e.resps[Len(e.resps)][1] = cr.cur[1].status
+             lg == IF cut THEN SubSeq(e.resps, 1, Len(cr.resps)) ELSE e.resps IN
+         IF ~RespsOk(cr.resps, lg, e.cclosed = 1 \/ e.rst = 1 \/ e.unread = 1) THEN Rej("the client received other responses than the model sent: " \o ToString(cr.resps))
+         ELSE IF e.partial # 0 /\ cr.cur = << >> /\ e.rst = 0 /\ e.unread = 0 THEN Rej("the client received bytes after the last complete response")
          ELSE IF e.cclosed = 1 THEN Ok(s0)                                  \* the client closed its own end: it cannot tell
          ELSE IF cr.st = "live" /\ (e.eof = 1 \/ e.rst = 1) THEN Rej("connection closed under a client the model keeps alive")
          ELSE IF cr.st \in {"dead", "refused"} /\ e.eof = 0 /\ e.rst = 0 THEN Rej("the model closed the connection, the client sees it open")
